@@ -174,13 +174,27 @@ def eval_expr(e, env: Env):
         if isinstance(base, dict):
             return base[eval_expr(e.slice, env)]
         raise AnalysisError(f"layout: unsupported subscript `{norm(e)}`")
-    if isinstance(e, (ast.ListComp, ast.GeneratorExp)) and len(e.generators) == 1 and not e.generators[0].ifs and isinstance(e.generators[0].target, ast.Name):
+    if isinstance(e, (ast.ListComp, ast.GeneratorExp, ast.DictComp, ast.SetComp)) and len(e.generators) == 1:
         g = e.generators[0]
-        out = []
+
+        def _bind(t, v, env2):
+            if isinstance(t, ast.Name):
+                env2[t.id] = v
+            elif isinstance(t, (ast.Tuple, ast.List)) and isinstance(v, (list, tuple)) and len(t.elts) == len(v):
+                for tt, vv in zip(t.elts, v):
+                    _bind(tt, vv, env2)
+            else:
+                raise AnalysisError(f"layout: unsupported comprehension target `{norm(t)}`")
+        out = {} if isinstance(e, ast.DictComp) else []
         for v in eval_expr(g.iter, env):
             env2 = Env(env)
-            env2[g.target.id] = v
-            out.append(eval_expr(e.elt, env2))
+            _bind(g.target, v, env2)
+            if not all(eval_expr(c, env2) for c in g.ifs):
+                continue
+            if isinstance(e, ast.DictComp):
+                out[eval_expr(e.key, env2)] = eval_expr(e.value, env2)
+            else:
+                out.append(eval_expr(e.elt, env2))
         return out
     if isinstance(e, ast.Call):
         nm = call_name(e)
@@ -243,6 +257,10 @@ def eval_expr(e, env: Env):
             return max(vals) if nm == "max" else min(vals)
         if nm == "zip":
             return list(zip(*args))
+        if nm == "enumerate":
+            return [(k + (args[1] if len(args) > 1 else (eval_expr(kwarg(e, "start"), env) if kwarg(e, "start") is not None else 0)), v) for k, v in enumerate(args[0])]
+        if nm == "len":
+            return len(args[0])
         if nm == "dict":
             return dict(args[0])
         if nm == "reversed":
